@@ -92,6 +92,23 @@ func genObjScene(rng *rand.Rand, n int) *objScene {
 			}
 		}
 	}
+	// now and then the scene also has an unbounded object (an infinite ground slab, as scenes
+	// with a floor have): its box, and the box of every branch that holds it, has infinite extent
+	if n >= 2 && rng.Intn(10) == 0 {
+		inf := math.Inf(1)
+		z := float64(rng.Intn(g+1)) - 0.5
+		mn, mx := model3d.XYZ(-inf, -inf, z-1), model3d.XYZ(inf, inf, z)
+		if rng.Intn(3) == 0 {
+			mn, mx = model3d.XYZ(-inf, -inf, -inf), model3d.XYZ(inf, inf, z) // half space
+		}
+		add(&model3d.Rect{MinVal: mn, MaxVal: mx}, fmt.Sprintf("unbounded slab %v..%v", mn, mx))
+		// swap it to a seeded position
+		i := rng.Intn(len(s.objs))
+		last := len(s.objs) - 1
+		s.objs[i], s.objs[last] = s.objs[last], s.objs[i]
+		s.desc[i], s.desc[last] = s.desc[last], s.desc[i]
+		s.kind += "+unbounded"
+	}
 	proxy.exact = s.exact
 	proxy.kind = s.kind
 	s.tris = proxy
